@@ -330,6 +330,25 @@ def rule_r6(facts, rep, rid="C14-R6"):
         rep.violation(rid, key, "the loader's extension test is not the exact comparison with `md`", nf.loc)
 
 
+def rule_r8(facts, rep, rid="C14-R8"):
+    """Key -> file goes through one function: BasePath::key_to_url hands `Key::to_path()` (key + `.md`, nothing stripped) to the url builder.  A key may itself
+    end in `.md` (the note `x.md.md`); a "strip one `.md`, then append" normalisation is right for link urls typed by users but maps that key to the file of
+    another note."""
+    f = facts.fn("BasePath::key_to_url")
+    rep.saw_fn(f)
+    c = ctx(f)
+    key = f.def_ + "|through-Key::to_path"
+    m = c.mentions(f.body)
+    through = q.has_call(m, "Key::to_path")
+    strips = [x for x in fb.walk(f.body) if x.get("k") == "mcall" and x["name"] in ("strip_suffix", "trim_end_matches", "trim_matches", "strip_prefix", "replace", "replacen",
+                                                                                      "with_extension", "file_stem", "rsplit_once", "split_once")]
+    if through and not strips:
+        rep.ok(rid, key, "file_url(&key.to_path())", f.loc)
+    else:
+        rep.violation(rid, key, "BasePath::key_to_url does not map the key through Key::to_path() unchanged (uses to_path: %s, rewrites the name with %s): the note loaded from `x.md.md` "
+                      "(key `x.md`) is reported under the URI of `x.md`, another note's file" % (through, [x["name"] for x in strips] or "-"), loc(f, strips[0]) if strips else f.loc)
+
+
 def run(facts, rep, tier):
     rep.rule("C14-R6", "The name conversions are literal and symmetric: no case folding and no one-sided path resolution (canonicalize) in liwe::fs / Key / BasePath, the writer appends `.md` "
              "without looking at the key, the loader's extension test is the exact literal.")
@@ -351,3 +370,5 @@ def run(facts, rep, tier):
     rep.rule("C14-R7", "= C15-R3: Key::parent (the directory relative links and new notes are resolved against) uses the path algebra of the url reader / writer.")
     from . import c15 as _c15
     _c15.rule_r3(facts, rep, "C14-R7")
+    rep.rule("C14-R8", "Key -> URI goes through Key::to_path (append-only): BasePath::key_to_url does not normalise the key's own `.md` away.")
+    rule_r8(facts, rep)
